@@ -35,7 +35,7 @@ let string_of_z z =
   end
 
 let kind_of_int = function 0 -> Plain | 1 -> Fixed | _ -> Varying
-let ty_of_int = function 0 -> TBlob | 1 -> TUInt | 2 -> TSInt | 3 -> TU8 | 4 -> TS8 | 5 -> TByte | 6 -> TTrk | _ -> TTrkC
+let ty_of_int = function 0 -> TBlob | 1 -> TUInt | 2 -> TSInt | 3 -> TU8 | 4 -> TS8 | 5 -> TByte | 6 -> TTrk | 7 -> TTrkC | 8 -> TTrkMA | _ -> TTrkCA
 
 let zs l = String.concat " " (List.map (fun z -> string_of_int (int_of_z z)) l)
 let hex objs =
@@ -154,7 +154,8 @@ let print_static l statics =
   Printf.printf "LARGEST %s\n" (zs (largest l));
   Printf.printf "TRAILS %s\n" (zs (trails l));
   let ridx r = String.concat " " (List.map (function RSkip -> "S" | RManual -> "M" | REnd e -> string_of_int (int_of_nat e)) r) in
-  Printf.printf "RUNS asg %s\n" (ridx (runs_asg l));
+  Printf.printf "RUNS asg %s\n" (ridx (runs_asg false l));
+  Printf.printf "RUNS asgm %s\n" (ridx (runs_asg true l));
   Printf.printf "RUNS swp %s\n" (ridx (runs_swp l));
   Printf.printf "RUNS eq %s\n" (ridx (runs_eq l));
   Printf.printf "RUNS lex %s\n" (ridx (runs_lex l));
